@@ -201,6 +201,8 @@ inline uint64_t parseTimeYMD(const RSTimestampYMD* tsYmd)
   stm.tm_hour = tsYmd->hour;
   stm.tm_min = tsYmd->minute;
   stm.tm_sec = tsYmd->second;
+  // let mktime() decide whether daylight saving is in force at this local time
+  stm.tm_isdst = -1;
   time_t sec = std::mktime(&stm);
 
   uint64_t ms = ntohs(tsYmd->ms);
